@@ -917,6 +917,7 @@ pub fn execute_opts(spec: &RunSpec, capture_sites: bool) -> Outcome {
     out.yields = s.stats.yields;
     out.lock_events = s.stats.lock_events;
     out.max_queue = s.stats.max_queue;
+    out.lock_probes = s.probes.clone();
     // trace digest: scheduler decisions + lock trace + every message with its simulated time
     let mut d = Digest(s.digest.0);
     for e in &out.history {
